@@ -729,14 +729,19 @@ func c09DKG(g *gen.G) {
 	for i, m := 0, g.Int("dkgCalls", 1, 14); i < m; i++ {
 		orig := hostileInt(g, "orig", n)
 		switch g.Int("origKind", 0, 5) {
-		case 0, 1, 2, 3:
+		case 0, 1:
 			orig = g.Pick("origIn", n)
+		case 2, 3:
+			orig = dealer // most parser branches are only reached by messages of the instance's dealer
+			if proto == sim.JointFeldman {
+				orig = (me + 1) % n
+			}
 		case 4:
 			orig = []int{n, -1, n + 256, 256}[g.Pick("origEdge", 4)] // the values next to the range, and their byte-truncated twins
 		}
 		var data []byte
-		switch g.Int("payloadKind", 0, 8) {
-		case 8: // a bare tag byte, or a tag and one more byte: the shortest payloads every parser branch has to survive
+		switch g.Int("payloadKind", 0, 9) {
+		case 8, 9: // a bare tag byte, or a tag and one more byte: the shortest payloads every parser branch has to survive
 			data = []byte{byte(g.Int("bareTag", 0, 4))}
 			if g.Bool("oneMore") {
 				data = append(data, byte(g.Int("second", 0, 255)))
